@@ -82,4 +82,5 @@ MUTANTS += [
         {"file": I, "old": SOLVE_C, "new": SOLVE_C_G},
     ]},
     {'id': 'c02-undo-F23-aux', 'prop': 'C02', 'rule': 'R9', 'key': 'cache-store-may-alias-variable', 'edits': [{'file': 'states.py', 'old': '                        state._cache[k] = _without_variable_aliasing(state, v)\n', 'new': '                        state._cache[k] = v\n'}]},
+    {'id': 'c02-midpoint-retries-smaller-steps', 'prop': 'C02', 'rule': 'R10', 'edits': [{'file': 'integrators.py', 'old': '        self._step_a_fwd(state, time_step / 2)\n        self._step_a_adj(state, time_step / 2)\n', 'new': '        pos_init, mom_init = state.pos.copy(), state.mom.copy()\n        try:\n            self._step_a_fwd(state, time_step / 2)\n            self._step_a_adj(state, time_step / 2)\n        except ConvergenceError:\n            state.pos, state.mom = pos_init, mom_init\n            for _ in range(2):\n                self._step_a_fwd(state, time_step / 4)\n                self._step_a_adj(state, time_step / 4)\n'}], 'key': 'fallback-after'},
 ]
